@@ -296,8 +296,11 @@ def _run_and_judge(case, m, n, bs, kind, val, ths, objkw, pick, ctx):
                                 % (i - 1, np.asarray(prev.cov).tolist(), cov.tolist(), ctx))
             wn = wp / wp.sum()
             q = np.zeros(n)
+            sd_ = np.sqrt(np.diag(cov))
             for wj, mj in zip(wn, thp):
-                q += wj * np.reshape(ss.multivariate_normal.pdf(th, mean=mj, cov=cov), -1)
+                # the covariance is diagonal by definition (twice the weighted variance per parameter): the component density is the
+                # product of univariate normals (no matrix test that could refuse variances of very different magnitude)
+                q += wj * np.prod(ss.norm.pdf(np.reshape(th, (n, -1)), loc=np.reshape(mj, -1), scale=sd_), axis=1)
             ok = (pd > 0) & (q > 0)            # densities that underflow in floating point are not compared
             if not ok.all():
                 labels.append('underflowing-density-skipped')
